@@ -434,7 +434,11 @@ func (x *runner) runSeq(caseID string, pl *plan) (res seqResult) {
 			r.Count("params_rejected_by_validation/"+pl.Init.Shape, 1)
 			r.Set("last_params_rejection", fmt.Sprintf("%s: %s", pl.Init.String(), why))
 		}
-		n.End()
+		if err, p := core.Catch(func() error { n.End(); return nil }); p {
+			r.Inconclusive("%s: set-up block could not end: %v", caseID, err)
+			x.shared = nil
+			return
+		}
 	}
 	if !pl.ViaGenesis {
 		defer func() {
@@ -656,7 +660,12 @@ func (x *runner) runSeq(caseID string, pl *plan) (res seqResult) {
 				r.Inconclusive("%s: cannot reset parameters: %s", caseID, why)
 			}
 		}
-		n.End()
+		if err, p := core.Catch(func() error { n.End(); return nil }); p {
+			// not reachable through rvesting on the unchanged tree (its EndBlock is empty); the chain is dead, the harness cannot go on
+			r.Inconclusive("%s block %d: EndBlock/Commit panicked: %v", caseID, bi, err)
+			res.halted = true
+			return
+		}
 
 		// (4) end of block: supply moved only by the harness's own mints, the pool only by BeginBlocker and funding
 		end, err := bankOf(n, preCtx(n))
@@ -702,8 +711,8 @@ func TestC20(t *testing.T) {
 	r.Assume("the pool is funded/reset by the harness through a minter module (mint + module-to-module send); users cannot send to the blocked pool address")
 	defer r.Finish()
 
-	nSeq := r.N(200, 6000)
-	r.MinNontrivial(r.N(100, 3000))
+	nSeq := r.N(200, 5000)
+	r.MinNontrivial(r.N(100, 2500))
 	x := &runner{r: r}
 	perNode := 0
 	for i := 0; i < nSeq; i++ {
